@@ -5,6 +5,7 @@ package dynamiccache
 import (
 	"context"
 	"errors"
+	"time"
 
 	"k8s.io/apimachinery/pkg/apis/meta/v1/unstructured"
 	"k8s.io/apimachinery/pkg/runtime"
@@ -127,6 +128,22 @@ func vObjOfKind(kind string) *unstructured.Unstructured {
 	return u
 }
 
+// vRecorder is a metrics recorder: with one configured, every Watch and Free also samples the cache (lists every
+// watched kind through the informer map).
+type vRecorder struct{ informers, objects int }
+
+func (r *vRecorder) RecordDynamicCacheInformers(int) {
+	verifrt.Lock()
+	r.informers++
+	verifrt.Unlock()
+}
+
+func (r *vRecorder) RecordDynamicCacheObjects(schema.GroupVersionKind, int) {
+	verifrt.Lock()
+	r.objects++
+	verifrt.Unlock()
+}
+
 type vCacheWorld struct {
 	c       *Cache
 	im      *vInformerMap
@@ -183,6 +200,9 @@ func VerifC12Step() {
 	nKinds := verifrt.Bound("kinds", 2)
 	nOwners := verifrt.Bound("owners", 2)
 	w := vDrawWorld(nKinds, nOwners)
+	if verifrt.Bool("metricsRecorder.configured") {
+		w.c.recorder = &vRecorder{}
+	}
 	w.checkInvariant("C12/pre")
 	ctx := context.Background()
 	op := verifrt.IntRange("op", 0, 4) // Watch | Free | Get | List | OwnersForGKV
@@ -350,8 +370,12 @@ func VerifC12Race() {
 		calls[t].kind = vKinds[verifrt.IntRange(p+".kind", 0, nKinds-1)]
 		calls[t].owner = vOwners[verifrt.IntRange(p+".owner", 0, nOwners-1)]
 	}
+	withRecorder := verifrt.Bool("metricsRecorder.configured")
 	for iter := 0; iter < verifrt.Repeat(); iter++ {
 		w := vBuildWorld(pre)
+		if withRecorder {
+			w.c.recorder = &vRecorder{}
+		}
 		ctx := context.Background()
 		var errs [2]error
 		done := make(chan int, 2)
@@ -376,8 +400,21 @@ func VerifC12Race() {
 				done <- t
 			}(t)
 		}
-		<-done
-		<-done
+		if verifrt.Symbolic() {
+			<-done
+			<-done
+		} else {
+			// natively a deadlock shows as a hang
+			timeout := time.After(3 * time.Second)
+			for k := 0; k < 2; k++ {
+				select {
+				case <-done:
+				case <-timeout:
+					verifrt.Assert(false, "no-deadlock")
+					return
+				}
+			}
+		}
 		w.c.informerReferencesMux.Lock()
 		verifrt.Lock()
 		w.checkInvariant("C12/race")
